@@ -17,7 +17,9 @@ if sys.path[0] != REPO:
 LEVEL = "model_checking"
 
 import logging  # noqa: E402
-logging.disable(logging.CRITICAL)      # lasio's warnings about the generated inputs are not part of any verdict
+logging.disable(logging.CRITICAL)
+import warnings  # noqa: E402
+warnings.filterwarnings("ignore")      # lasio's warnings about the generated inputs are not part of any verdict
 
 
 def load_findings():
